@@ -3,7 +3,7 @@ import os, re, ast, json, itertools
 from framework import coq_N, coq_bs
 
 ID = 'C17'
-COQ_IMPORTS = ['C17_Model', 'C17_Convert', 'G_codes', 'G_gc_all'] + ['G_gcrec_%d' % i for i in
+COQ_IMPORTS = ['C17_Model', 'C17_Convert', 'C17_Gcode', 'G_codes', 'G_gc_ids', 'G_gc_all'] + ['G_gcrec_%d' % i for i in
                (1, 2, 3, 4, 5, 6, 9, 10, 11, 12, 13, 14, 15, 16, 21, 22, 23, 24, 25, 26, 27, 28, 29, 30, 31, 32, 33)]
 GENERATORS = ['gen_codes', 'gen_gcode_json', 'gen_gcode_prt', 'gen_gcode_records', 'gen_gcode_prt_text', 'gen_gcode_conv']
 EXTRA_TARGETS = []
@@ -33,12 +33,18 @@ LEVEL_TEXT = ('(a) Complete enumeration inside Coq (vm_compute, 27 tables x 15^3
               'C17_generate_gc_spec (no exception; tt answers base entry / common amino acid of all expansions / nothing), '
               'C17_entry_iff_expansions_agree, C17_base_entries, C17_starts_stops, C17_ambiguous_sets, C17_ttinv_rows, C17_ttinv_keys, '
               'C17_generate_gc_index_error; C17_codes_instance: sugar.data.CODES satisfies the side condition, so the 27 shipped tables are instances. '
-              'The loader gcode() is tied by comparing gcode(id) with the regenerated tables; the model of convert.py is tied by running the '
+              '(d) The loader gcode() as a state machine over its lru_cache (C17_Gcode: functools._make_key call forms gcode(x) / gcode(tt=x) / '
+              'gcode(), str(tt) lookup, KeyError / TypeError, identity of the returned object): C17_gcode_reads_stable (the same call returns '
+              'the same object after any sequence of other calls), C17_gcode_returns_requested (a hit through == never gives another table), '
+              'C17_gcode_unhashable; tied by random call sequences on a cleared cache (per call: exception class or table id + which call '
+              'created the object). The loader gcode() is also tied by comparing gcode(id) with the regenerated tables; the model of convert.py is tied by running the '
               'real script (runpy, scratch cwd, patched CODES) on synthetic gc.prt-like texts and alphabets and comparing with the model; '
               'the history clause is partial (static AST rule + snapshot testing).')
 LEVEL_NOTE = ('Trusted: Coq kernel/vm_compute; tools/gens/gcode.py, gcode_thm.py, c17.py (translators incl. the independent gc.prt parser); '
               'json/set/lru_cache/runpy of CPython. No axioms. Not proved: that no Python operation mutates the cached Attr objects '
-              '(checked by AST rule and snapshots only). The model of convert.py treats Python sets as lists in the key order of CODES; '
+              '(checked by AST rule and snapshots only; the cache model shows stability of READS, not absence of mutation through aliases). '
+              'Cache eviction (maxsize=128) is not modelled: the modelled key kinds give at most 1 + 4 x 27 = 109 entries; other hashable spellings '
+              '(numpy integers, int/str subclasses) are outside the model. The model of convert.py treats Python sets as lists in the key order of CODES; '
               'fields filled while iterating a set (ambiguous part of tt, astarts, astops) are compared as sets. Domain of the convert.py tie: '
               'ASCII text, id fields without sign/underscore, alphabets whose value letters are bases or no code letters (otherwise line 47 '
               'depends on the hash order of a set).')
@@ -256,6 +262,72 @@ def _conv_spec(case, got):
     return None
 
 
+# ---- gcode(): call forms, key spellings, exceptions, identity of the cached object -----------------------------------------
+
+def _gen_gcalls(rng):
+    calls = []
+    pool_z = list(IDS) + [0, 7, 8, 17, 34, -1, 100, 1, 1, 2, 11]
+    pool_s = [str(i) for i in IDS] + ['01', ' 1', 'Standard', '', '1.0', 'True', 'None', '1', '2', '+1', '1_1']
+    few_z = [rng.choice(pool_z) for _ in range(3)]
+    few_s = [rng.choice(pool_s) for _ in range(2)] + [str(few_z[0])]
+    for _ in range(rng.randrange(1, 14)):
+        f = rng.choice([0, 0, 0, 1, 1, 2])
+        kind = rng.choice([0, 0, 0, 1, 1, 2, 2, 3, 4, 5])
+        z = rng.choice(few_z) if rng.random() < .8 else rng.choice(pool_z)
+        st = rng.choice(few_s) if rng.random() < .8 else rng.choice(pool_s)
+        calls.append([f, kind, z, st])
+    return calls
+
+
+def _run_gcalls(calls):
+    from sugar.data import gcode
+    gcode.cache_clear()
+    objs, out = [], []
+    try:
+        for f, kind, z, st in calls:
+            v = [z, st, float(z), z == 1, None, [z]][kind]
+            try:
+                g = gcode() if f == 2 else (gcode(tt=v) if f == 1 else gcode(v))
+            except (KeyError, TypeError) as e:
+                objs.append(None)
+                out.append({'e': type(e).__name__})
+                continue
+            objs.append(g)
+            out.append([g.id, next(i for i, o in enumerate(objs) if o is g)])
+        # every object handed out for one id has the same content
+        for i, o in enumerate(objs):
+            for p in objs[:i]:
+                if o is not None and p is not None and o.id == p.id and o is not p:
+                    assert dict(o) == dict(p), 'two gcode() objects of table %r differ' % o.id
+    finally:
+        gcode.cache_clear()
+    return out
+
+
+def _gcalls_spec(case, got):
+    if isinstance(got, dict):
+        return 'the call sequence raised ' + got['e']
+    seen = {}
+    for (f, kind, z, st), r in zip(case['gcalls'], got):
+        key = repr((f, kind, z if kind != 1 else st)) if f != 2 else 'default'
+        want = 1 if f == 2 else (z if kind == 0 else (int(st) if kind == 1 and st.isdigit() and str(int(st)) == st else None))
+        if isinstance(r, dict):
+            if want in IDS and kind in (0, 1) or f == 2:
+                return 'gcode call %r raised %s' % ((f, kind, z, st), r['e'])
+            if kind == 5 and r['e'] != 'TypeError' or kind != 5 and r['e'] != 'KeyError':
+                return 'gcode call %r raised %s' % ((f, kind, z, st), r['e'])
+            continue
+        if kind in (0, 1) or f == 2:
+            if r[0] != want:
+                return 'gcode call %r returned table %r' % ((f, kind, z, st), r[0])
+        elif r[0] != z:
+            return 'gcode call %r returned table %r' % ((f, kind, z, st), r[0])
+        if key in seen and seen[key] != r:
+            return 'the same gcode call %r returned another object the second time' % ((f, kind, z, st),)
+        seen[key] = r
+    return None
+
+
 def gen_cases(rng, tier):
     cases = []
     for t in IDS:
@@ -265,6 +337,8 @@ def gen_cases(rng, tier):
         cases.append({'id': t, 'ttinv': True})
     for _ in range(12000 if tier == 'thorough' else 1500):
         cases.append({'id': rng.choice(IDS), 'codon': ''.join(rng.choice(LETTERS) for _ in range(3))})
+    for _ in range(2000 if tier == 'thorough' else 250):
+        cases.append({'gcalls': _gen_gcalls(rng)})
     # convert.py on synthetic inputs; the expensive ones (whole IUPAC alphabet: 3375 codons per table inside Coq) are spread
     # over the shards of 400 cases
     nfull, nsmall = (24, 600) if tier == 'thorough' else (4, 90)
@@ -277,6 +351,8 @@ def gen_cases(rng, tier):
 
 
 def impl(case):
+    if 'gcalls' in case:
+        return _run_gcalls(case['gcalls'])
     if case.get('conv'):
         return _canon_json(run_convert(case['text'], case['codes']))
     from sugar.data import gcode
@@ -290,6 +366,8 @@ def impl(case):
 
 
 def split_model(case, m):
+    if 'gcalls' in case:
+        return all(abs(c[2]) < 10 ** 6 for c in case['gcalls']), m
     if case.get('conv'):
         return bool(m[0]), (_canon_model(m[1]) if isinstance(m[1], list) else m[1])
     return True, m
@@ -308,6 +386,9 @@ def _coq_codes(codes):
 
 
 def model_term(case):
+    if 'gcalls' in case:
+        return 'out (run_C17_gcode json_ids [%s])' % '; '.join(
+            '(%d%%N, %d%%N, (%d)%%Z, %s)' % (f, k, z, coq_bs(st) if st else '[]') for f, k, z, st in case['gcalls'])
     if case.get('conv'):
         return 'out (run_C17_conv %s %s)' % (_coq_codes(case['codes']), coq_bs(case['text']) if case['text'] else '[]')
     if case.get('ttinv'):
@@ -316,6 +397,8 @@ def model_term(case):
 
 
 def spec(case, got):
+    if 'gcalls' in case:
+        return _gcalls_spec(case, got)
     if case.get('conv'):
         return _conv_spec(case, got)
     if isinstance(got, dict):
@@ -336,6 +419,8 @@ def spec(case, got):
 
 
 def nontrivial(case, got):
+    if 'gcalls' in case:
+        return 'gcalls:' + json.dumps(got)[:200] if isinstance(got, list) and len(got) > 1 else None
     if case.get('conv'):
         if isinstance(got, dict):
             return 'conv:' + got['e']
@@ -348,6 +433,12 @@ def nontrivial(case, got):
 
 
 def histkey(case, got):
+    if 'gcalls' in case:
+        ks = ['gcode() sequences']
+        if isinstance(got, list):
+            ks += sorted({'gcode(): ' + (r['e'] if isinstance(r, dict) else ('cache hit' if r[1] != i else 'load'))
+                          for i, r in enumerate(got)})
+        return ks
     if case.get('conv'):
         return ['convert.py: ' + (got['e'] if isinstance(got, dict) else '%d tables' % len(got)),
                 'convert.py alphabet: ' + ('CODES' if case['codes'] == 'CODES' else '%d letters' % len(case['codes']))]
@@ -358,6 +449,10 @@ def histkey(case, got):
 
 
 def python_snippet(case):
+    if 'gcalls' in case:
+        return ("import sys; sys.path.insert(0, '/verif/tools/props'); sys.path.insert(0, '/verif/tools'); import c17; "
+                "print(c17._run_gcalls(%r))  # [form 0 positional/1 tt=/2 no argument, kind 0 int/1 str/2 float/3 bool/4 None/5 list, int, str]"
+                % (case['gcalls'],))
     if case.get('conv'):
         return ("import sys; sys.path.insert(0, '/verif/tools/props'); sys.path.insert(0, '/verif/tools'); import c17; "
                 "print(c17.run_convert(%r, %r))" % (case['text'], case['codes']))
@@ -521,4 +616,4 @@ def search_cases(broken, rng):
             yield {'id': t, 'codon': ''.join(c)}
 
 MODELLED_FUNCS = {'sugar/data/__init__.py': ['gcode'], 'sugar/data/data_gcode/convert.py': ['generate_gc', 'filter_line']}
-NO_SHRINK_KEYS = {'ttinv', 'id', 'conv', 'codes'}
+NO_SHRINK_KEYS = {'ttinv', 'id', 'conv', 'codes', 'gcalls'}
